@@ -106,3 +106,92 @@ with upath_hs (hs : handlers) (t : trace) (v : var) (u : N) {struct hs} : Prop :
    binding of the use's variable on some path from the function entry *)
 Definition strict_reach (p : block) (u : N) (d : node) : Prop :=
   exists t v, upath_b p t v u /\ d = applyv t v UN.
+
+(* ------------------------------------------------------------------------------------------
+   Liberal path semantics (the upper bound of C09).  `prot` says that the statement list is
+   protected: it is the body of a try or with statement (or a handler / else clause of a try
+   that has a finally clause); every statement of a protected list may raise, before it starts
+   and right after it completes.  A with statement itself may raise on entry (and a suppressing
+   one may then complete normally).  Every loop, `while True` included, may additionally be left
+   at its head after any number of rounds without running its else clause. *)
+
+Fixpoint lpath_s (prot : bool) (s : stmt) (o : outcome) (t : trace) {struct s} : Prop :=
+  match s with
+  | SAssign v d => o = ONorm /\ t = [(v, d)]
+  | SUse _ _ | SPass => o = ONorm /\ t = []
+  | SCall => (o = ONorm \/ o = OExc) /\ t = []
+  | SReturn => o = ORet /\ t = []
+  | SRaise => o = OExc /\ t = []
+  | SBreak => o = OBrk /\ t = []
+  | SContinue => o = OCont /\ t = []
+  | SIf b e => lpath_b prot b o t \/ lpath_b prot e o t
+  | SWith sup b =>
+      (o = OExc /\ t = []) \/ (sup = true /\ o = ONorm /\ t = []) \/
+      lpath_b true b o t \/ (sup = true /\ o = ONorm /\ lpath_b true b OExc t)
+  | SLoop forever b e =>
+      exists th t2, iters (fun x => lpath_b prot b ONorm x \/ lpath_b prot b OCont x) th /\ t = th ++ t2 /\
+        (lpath_b prot e o t2 \/
+         (o = ONorm /\ t2 = []) \/
+         (o = ONorm /\ lpath_b prot b OBrk t2) \/
+         ((o = ORet \/ o = OExc) /\ lpath_b prot b o t2))
+  | STry b hs e f =>
+      exists o1 t1 o2 t2,
+        ((exists ta tb, lpath_b true b ONorm ta /\ lpath_b (prot || negb (is_nil f)) e o1 tb /\ t1 = ta ++ tb) \/
+         ((o1 = OBrk \/ o1 = OCont \/ o1 = ORet) /\ lpath_b true b o1 t1) \/
+         (exists tx, lpath_b true b OExc tx /\
+            ((exists th, lpath_hs (prot || negb (is_nil f)) hs o1 th /\ t1 = tx ++ th) \/ (o1 = OExc /\ t1 = tx)))) /\
+        lpath_b prot f o2 t2 /\ t = t1 ++ t2 /\
+        o = match o2 with ONorm => o1 | _ => o2 end
+  end
+with lpath_b (prot : bool) (b : block) (o : outcome) (t : trace) {struct b} : Prop :=
+  match b with
+  | BNil => o = ONorm /\ t = []
+  | BCons s r =>
+      (prot = true /\ o = OExc /\ t = []) \/
+      (exists t1 t2, lpath_s prot s ONorm t1 /\ lpath_b prot r o t2 /\ t = t1 ++ t2) \/
+      (prot = true /\ o = OExc /\ lpath_s prot s ONorm t) \/
+      (o <> ONorm /\ lpath_s prot s o t)
+  end
+with lpath_hs (prot : bool) (hs : handlers) (o : outcome) (t : trace) {struct hs} : Prop :=
+  match hs with
+  | HNil => False
+  | HCons h r => lpath_b prot h o t \/ lpath_hs prot r o t
+  end.
+
+Definition lpath_te (prot : bool) (b : block) (hs : handlers) (e : block) (pe : bool) (o1 : outcome) (t1 : trace) : Prop :=
+  (exists ta tb, lpath_b true b ONorm ta /\ lpath_b pe e o1 tb /\ t1 = ta ++ tb) \/
+  ((o1 = OBrk \/ o1 = OCont \/ o1 = ORet) /\ lpath_b true b o1 t1) \/
+  (exists tx, lpath_b true b OExc tx /\
+     ((exists th, lpath_hs pe hs o1 th /\ t1 = tx ++ th) \/ (o1 = OExc /\ t1 = tx))).
+
+Fixpoint lupath_s (prot : bool) (s : stmt) (t : trace) (v : var) (u : N) {struct s} : Prop :=
+  match s with
+  | SUse v' u' => u' = u /\ v' = v /\ t = []
+  | SIf b e => lupath_b prot b t v u \/ lupath_b prot e t v u
+  | SWith _ b => lupath_b true b t v u
+  | SLoop forever b e =>
+      exists th t2, iters (fun x => lpath_b prot b ONorm x \/ lpath_b prot b OCont x) th /\ t = th ++ t2 /\
+        (lupath_b prot b t2 v u \/ lupath_b prot e t2 v u)
+  | STry b hs e f =>
+      lupath_b true b t v u \/
+      (exists ta tb, lpath_b true b ONorm ta /\ lupath_b (prot || negb (is_nil f)) e tb v u /\ t = ta ++ tb) \/
+      (exists tx th, lpath_b true b OExc tx /\ lupath_hs (prot || negb (is_nil f)) hs th v u /\ t = tx ++ th) \/
+      (exists o1 t1 t2, lpath_te prot b hs e (prot || negb (is_nil f)) o1 t1 /\ lupath_b prot f t2 v u /\ t = t1 ++ t2)
+  | _ => False
+  end
+with lupath_b (prot : bool) (b : block) (t : trace) (v : var) (u : N) {struct b} : Prop :=
+  match b with
+  | BNil => False
+  | BCons s r =>
+      lupath_s prot s t v u \/
+      (exists t1 t2, lpath_s prot s ONorm t1 /\ lupath_b prot r t2 v u /\ t = t1 ++ t2)
+  end
+with lupath_hs (prot : bool) (hs : handlers) (t : trace) (v : var) (u : N) {struct hs} : Prop :=
+  match hs with
+  | HNil => False
+  | HCons h r => lupath_b prot h t v u \/ lupath_hs prot r t v u
+  end.
+
+(* liberal reaching definitions of a function body *)
+Definition liberal_reach (p : block) (u : N) (d : node) : Prop :=
+  exists t v, lupath_b false p t v u /\ d = applyv t v UN.
